@@ -37,7 +37,8 @@ Section Run.
     let '(kind, i, o) := c in
     let '(a, b, cc) := inputs i in
     let r := af_solve_quadratic a b cc in
-    if sfl_eqb (outputs r) o then
+    (* the expected values are re-encoded in the instance's own format (a binary32 value arrives as a binary64 literal) *)
+    if sfl_eqb (outputs r) (map (fun y => toSF (ofSF y)) o) then
       let s := quad_steps a b cc in
       (quad_path s + b2n (enclosure_hyps_s a b cc s) 8 + b2n (nestedb r) 16 + b2n (disjointb r) 32
        + b2n (rejection_hyps_s a b cc s) 64)%N
